@@ -2,7 +2,7 @@ SPECIFICATION Spec
 CONSTANTS
   Cfg0 <- CfgA
   Users = {1, 2, 3}
-  Ops <- OpsThorough
+  Ops <- OpsT3
   MaxOps = 3
   Notifs <- NotifsA
   MaxNotif = 1
